@@ -135,6 +135,9 @@ FAMILY_MODULE["measure"] = "Trace_Measure"
 
 
 def _canary_measure(e):
+    if "kind" in e:  # sliver: a centroid 2e-9 * a off
+        e["dxu"] += 3 * 4503599
+        return e
     if not e["g"]:
         return None
     e["area2"] += 1
@@ -157,6 +160,9 @@ FAMILY_MODULE["boundary"] = "Trace_Boundary"
 
 
 def _canary_boundary(e):
+    if "kind" in e:  # sliver: one ulp outside
+        e["xu"] = e["k"] + 1
+        return e
     if not e["g"] or e["pos"]["empty"]:
         return None
     e["pos"]["q"] = [-5000, -5000]
@@ -400,7 +406,7 @@ FAMILY_MODULE["equal"] = "Trace_Equality"
 
 
 def _canary_equal(e):
-    if e["kind"] != "pair":
+    if e["kind"] not in ("pair", "curve"):
         return None
     e["eqio"] = not e["eqio"]
     e["eqiorev"] = e["eqio"]
@@ -412,7 +418,8 @@ CANARY["equal"] = _canary_equal
 
 @prop("C18")
 def c18(run):
-    run.assumptions += ["closed LineStrings in the families are simple (rings), so 'closed' decides whether rotation is ignored; "
+    run.assumptions += ["closed LineStrings in the opaque-token families are simple (rings), so 'closed' decides whether rotation is ignored there; "
+                        "closed non-simple curves are covered by kind 'curve' on integer vertices where simplicity is decided exactly; "
                         "ToleranceXY is decided on integer vertices (t^2 integer)"]
     run.extra_cov = {"rule": "every (base, variant) pair of the TLC family (reorderings: all member / hole permutations incl. duplicate "
                              "members, ring rotations and reversals, line reversal; single differences: one ordinate by one ulp at "
